@@ -439,6 +439,8 @@ func (s *StoreSim) RunCase(c *StoreCase, input, prev []byte, rd *storeReader) (*
 						}
 						s.Soft = append(s.Soft, SoftViolation{softViol(len(input), res2.alloc, bound, fresh.alloc, rd, &cc), &cc})
 					}
+				} else if lv, ok := errorChain(res2.err); ok {
+					return violStore("blowup-errorchain", "", fmt.Sprintf("decoding a %d-byte input allocated %d bytes (allowance %d): the decode failed %d levels deep and every level wrapped the error text of the level below", len(input), res2.alloc, bound, lv), c), how
 				} else {
 					return violStore("blowup", "", fmt.Sprintf("decoding a %d-byte input allocated %d bytes (allowance %d = 64KiB + %d per input byte)", len(input), res2.alloc, bound, rd.k), c), how
 				}
@@ -485,6 +487,15 @@ func (s *StoreSim) RunCase(c *StoreCase, input, prev []byte, rd *storeReader) (*
 
 func softViol(n int, alloc, bound, fresh uint64, rd *storeReader, c *StoreCase) *Violation {
 	return violStore("blowup-history", "", fmt.Sprintf("decoding a %d-byte input allocated %d bytes on the long-lived instance (allowance %d) but %d on a brand-new one: allocation grows with what the instance decoded before%s", n, alloc, bound, fresh, internNote(rd.ti.T)), c)
+}
+
+// errorChain recognises the one input-dependent allocation that is not a
+// decoder sizing something from the input: every nesting level wraps the error
+// of the level below into a new, longer text (fmt.Errorf("... %w")), so a
+// decode that fails d levels deep builds O(d^2) bytes of error text.
+func errorChain(errText string) (levels int, ok bool) {
+	levels = strings.Count(errText, "failed reading field")
+	return levels, levels >= 48 && len(errText) >= 2048
 }
 
 // internNote names the one mechanism in plenc whose allocation depends on
@@ -885,7 +896,10 @@ func (s *StoreSim) ShortBlocks(idx int, thorough bool) (*Violation, *StoreCase) 
 // length" are statements about growth. Records with N, 4N, 16N ... elements
 // are decoded (valid and damaged) and the cost per input byte must not grow.
 
-var scaleTypes = []string{"Nest", "NestD", "[][]int", "map[string][]int", "[]Inner", "[]string", "[]int", "[][]byte", "[]*Node", "MapSI", "MapKS", "MapKV", "Wide", "JDoc", "V2", "[]float64", "Maps", "MTarget", "SymBox", "Node", "RootA"}
+var scaleTypes = []string{"Tree", "Nest", "NestD", "[][]int", "map[string][]int", "[]Inner", "[]string", "[]int", "[][]byte", "[]*Node", "MapSI", "MapKS", "MapKV", "Wide", "JDoc", "V2", "[]float64", "Maps", "MTarget", "SymBox", "Node", "RootA"}
+
+// chainTypes are probed as deep chains instead of wide containers.
+var chainTypes = map[string]bool{"Tree": true, "RA": true}
 
 type scalePoint struct {
 	steps   int
@@ -943,6 +957,14 @@ func (s *StoreSim) ScaleProbe(seed uint64, idx int, thorough bool) (*Violation, 
 	for _, n := range sizes {
 		r := engine.PRNG{S: engine.Mix(seed, 0x5CA1E, uint64(idx), uint64(n))}
 		v := world.Gen(ti.T, &r, world.GenOpts{Size: 8, Fanout: n, ZeroPct: 20})
+		if chainTypes[tn] {
+			// a self-referential type nested n levels deep: recursion depth, not width
+			cv, ok := world.Chain(ti.T, &r, n)
+			if !ok {
+				return nil, nil
+			}
+			v = cv
+		}
 		rec, errs, pan := soloMarshal(cfg, v.Addr().Interface())
 		InstallStoreHooks()
 		if pan != "" || errs != "" || len(rec) < n {
@@ -988,6 +1010,7 @@ func (s *StoreSim) ScaleProbe(seed uint64, idx int, thorough bool) (*Violation, 
 			best := int64(1 << 62)
 			var alloc uint64
 			lastSteps := 0
+			chained := false
 			for rep := 0; rep < 3; rep++ {
 				buf := present(input, nil, "exact")
 				t0 := nanotime()
@@ -1009,6 +1032,19 @@ func (s *StoreSim) ScaleProbe(seed uint64, idx int, thorough bool) (*Violation, 
 				}
 				bound := uint64(allocBase + rd.k*len(input))
 				if res.alloc > bound {
+					if lv, ok := errorChain(res.err); ok {
+						// a listed finding of its own kind: note it once per reader and carry on
+						if s.softSeen == nil {
+							s.softSeen = map[string]bool{}
+						}
+						if !s.softSeen["errorchain:"+tn] {
+							s.softSeen["errorchain:"+tn] = true
+							cc := *c
+							s.Soft = append(s.Soft, SoftViolation{violStore("blowup-errorchain", "", fmt.Sprintf("decoding a %d-byte input (%s) allocated %d bytes (allowance %d): the decode failed %d levels deep and every level wrapped the error text of the level below (final text %d bytes)", len(input), c.Fault, res.alloc, bound, lv, len(res.err)), &cc), &cc})
+						}
+						chained = true
+						break
+					}
 					return violStore("blowup", "", fmt.Sprintf("decoding a %d-byte input (%s) allocated %d bytes (allowance %d)", len(input), c.Fault, res.alloc, bound), c), c
 				}
 				if dt < best {
@@ -1016,6 +1052,9 @@ func (s *StoreSim) ScaleProbe(seed uint64, idx int, thorough bool) (*Violation, 
 				}
 				alloc = res.alloc
 				lastSteps = res.steps
+			}
+			if chained {
+				continue // the listed error-chain finding: no growth point from this input
 			}
 			points[di] = append(points[di], scalePoint{n: n, size: len(input), nanos: best, alloc: alloc, steps: lastSteps})
 			if len(inputs[di]) == 0 || n == sizes[len(sizes)-1] {
@@ -1114,6 +1153,9 @@ func RunStoreCase(c *StoreCase) *Violation {
 		for try := 0; try < 3; try++ {
 			if v, _ := s.ScaleProbe(c.Scale.Seed, c.Scale.Index, c.Scale.N > 4096); v != nil {
 				return v
+			}
+			if len(s.Soft) > 0 {
+				return s.Soft[0].V
 			}
 		}
 		return nil
